@@ -61,6 +61,11 @@ def run(ctx):
         vlib.report_failure(ctx, key_of(progs[i], results[i]["ok"]),
                             "a type recorded in the MIR is incomplete or inconsistent along an edge (Spec/MirSpec.v C05b)",
                             mp.replay_payload(progs[i], results[i]))
+    # a plain Python number as the initial value of a reduce: rejected today; if accepted, the types must still agree
+    mp.may_reject_family(ctx, {"C05": mp.on_mir("C05b")},
+                         lambda name, prog, res: ("C05/edge:plain-number-seed", "a type recorded in the MIR is inconsistent along an edge (Spec/MirSpec.v C05b)"),
+                         mp.plain_reduce_seed_programs(), "plain-number-as-reduce-seed",
+                         "xs.reduce(f, 0) with a plain Python number as the initial value", "plain_seed")
     if ok_x:
         dis = mp.tie_model(ctx, progs, results)
         if dis is not None:
